@@ -4,6 +4,7 @@
 //       the real loaders; they must fail cleanly or return a consistent, usable, savable object.
 #include "gl.hpp"
 #include "store_classes.hpp"
+#include <map>
 
 #include "Basic/AException.hpp"
 #include "Neigh/ANeigh.hpp"
@@ -1150,6 +1151,21 @@ void execRoundTrip(const Plan& p, Ctx& c)
         for (size_t i = 0; sameShape && i < q0.e.size(); i++) sameShape = q0.e[i].key == q1.e[i].key && q0.e[i].kind == q1.e[i].kind;
         if (sameShape) { onlyDoubles(q0); onlyDoubles(q1); c.count("skipped.discrete-probe-after-rounding"); }
         else { q0.e.clear(); q1.e.clear(); c.count("skipped.probe-shape-after-rounding"); }
+      }
+      // computed answers share the scale of their vector (an oscillating covariance crosses zero: an entry of 1e-7
+      // among entries of order 1 is not known to 1e-9 of itself): each double is given the absolute slack 1e-9 x the
+      // largest magnitude of its vector
+      {
+        std::map<std::string, double> vmax;
+        auto stem = [](const std::string& k) { size_t b = k.find('['); return b == std::string::npos ? k : k.substr(0, b); };
+        for (auto* q : {&q0, &q1}) for (auto& e : q->e) if (e.kind == 1 && std::isfinite(e.d) && std::fabs(e.d) < 1e29) { double& m = vmax[stem(e.key)]; m = std::max(m, std::fabs(e.d)); }
+        for (size_t i = 0; i < q0.e.size() && i < q1.e.size(); i++)
+        {
+          Desc::Entry &x = q0.e[i], &y = q1.e[i];
+          if (x.kind != 1 || y.kind != 1 || x.key != y.key || x.key.find('[') == std::string::npos) continue;
+          if (!std::isfinite(x.d) || !std::isfinite(y.d) || std::fabs(x.d) >= 1e29 || std::fabs(y.d) >= 1e29) continue;
+          if (std::fabs(x.d - y.d) <= 1e-9 * rounds * vmax[stem(x.key)]) y.d = x.d;
+        }
       }
       std::string df = descDiff(q0, q1, 1e-9 * rounds, 1e-300);
       if (!df.empty() && getenv("SIMKIT_DEBUG_DESC"))
